@@ -136,6 +136,13 @@ def run_mutant(tmp, relpath, suffix, old, new):
     if not cons:
         return "stale", f"no contract registered for {suffix}"
     base = ids(pyvc.verify(cons[0]))
+    # callee contracts live in other source files: give the scratch tree unchanged copies of every file under contract
+    import shutil
+    for tgt in list(pyvc.REGISTRY):
+        rp = tgt.split("::")[0]
+        if rp != relpath and os.path.exists(os.path.join("/repo", rp)) and not os.path.exists(os.path.join(tmp, rp)):
+            os.makedirs(os.path.dirname(os.path.join(tmp, rp)), exist_ok=True)
+            shutil.copy(os.path.join("/repo", rp), os.path.join(tmp, rp))
     dst = os.path.join(tmp, relpath)
     os.makedirs(os.path.dirname(dst), exist_ok=True)
     open(dst, "w").write(src.replace(old, new, 1))
@@ -146,7 +153,7 @@ def run_mutant(tmp, relpath, suffix, old, new):
     finally:
         pyvc.REPO = "/repo"
         pyvc._SRC_CACHE.clear()
-        os.remove(dst)
+        open(dst, "w").write(src)
     newf = sorted(ids(rep) - base)
     if newf:
         return "failed", ", ".join(x.split("::")[-1] for x in newf[:3])
